@@ -27,6 +27,7 @@ Nothing in here draws a random number or reads a real clock for a decision.
 from __future__ import annotations
 
 import _thread
+import concurrent.futures._base as _cf_base
 import queue
 import threading
 import time
@@ -43,6 +44,8 @@ _orig = {
     "is_alive": threading.Thread.is_alive,
     "SimpleQueue": queue.SimpleQueue,
     "sleep": time.sleep,
+    "thread_init": threading.Thread.__init__,
+    "future_init": _cf_base.Future.__init__,
     "queue_time": queue.time,  # type: ignore[attr-defined]
 }
 
@@ -61,13 +64,30 @@ class raw:
         _tls.raw -= 1
 
 
+_clients: dict[int, Any] = {}  # thread ident -> simulated client (set by the thread itself)
+
+
+def register_current(client: Any) -> None:
+    _clients[_thread.get_ident()] = client
+
+
+def unregister_current() -> None:
+    _clients.pop(_thread.get_ident(), None)
+
+
+def current_client() -> Any:
+    """The simulated client of the calling thread.  By thread ident, never through
+    ``threading.current_thread()``: that one fabricates (and registers) a dummy Thread object when
+    it is called in the bootstrap window of a thread that is not in ``threading._active`` yet."""
+    return _clients.get(_thread.get_ident())
+
+
 def baton_holder() -> Any:
     """The simulated client the calling thread is, if a simulation is running and the thread
     takes part in it (started, not finished, not in a raw section)."""
-    sched = ACTIVE
-    if sched is None:
+    if ACTIVE is None:
         return None
-    c = getattr(threading.current_thread(), "sim_client", None)
+    c = _clients.get(_thread.get_ident())
     if c is None or c.finished or not c.started or getattr(_tls, "raw", 0):
         return None
     return c
@@ -85,7 +105,7 @@ class CoopLock:
         r = self._real
         if r.acquire(False):
             return True
-        if not blocking:
+        if not blocking or timeout == 0:
             return False
         cur = baton_holder()
         if cur is None:
@@ -144,6 +164,7 @@ def _start(self: threading.Thread) -> None:
     orig_run = self.run
 
     def run() -> None:
+        register_current(client)
         client.sem.acquire()
         client.started = True
         try:
@@ -151,6 +172,7 @@ def _start(self: threading.Thread) -> None:
             orig_run()
         finally:
             sched.disarm_adopted(client)
+            unregister_current()
             sched.finish(client)
 
     self.run = run  # type: ignore[method-assign]
@@ -180,6 +202,32 @@ def _is_alive(self: threading.Thread) -> bool:
     return _orig["is_alive"](self)
 
 
+def _seq_hash(self: Any) -> int:
+    # Thread and Future objects hash by address by default, so the order of ``set``s of them
+    # (ThreadPoolExecutor._threads, as_completed's pending set) would depend on the allocator - a
+    # source of nondeterminism no plan controls.  Objects made by simulated threads hash by their
+    # creation number within the run instead.
+    n = self.__dict__.get("_sim_seq")
+    return n if n is not None else object.__hash__(self)
+
+
+def _number(obj: Any) -> None:
+    sched = ACTIVE
+    if sched is not None and baton_holder() is not None:
+        sched.obj_seq += 1
+        obj.__dict__["_sim_seq"] = sched.obj_seq
+
+
+def _thread_init(self: threading.Thread, *a: Any, **k: Any) -> None:
+    _number(self)
+    _orig["thread_init"](self, *a, **k)
+
+
+def _future_init(self: Any, *a: Any, **k: Any) -> None:
+    _number(self)
+    _orig["future_init"](self, *a, **k)
+
+
 def install() -> None:
     """Cooperative allocators and thread adoption on.  Idempotent.  Objects made while this is
     on stay cooperative for life (and behave like real ones outside a simulation)."""
@@ -193,6 +241,10 @@ def install() -> None:
     threading.Thread.start = _start  # type: ignore[method-assign]
     threading.Thread.join = _join  # type: ignore[method-assign]
     threading.Thread.is_alive = _is_alive  # type: ignore[method-assign]
+    threading.Thread.__init__ = _thread_init  # type: ignore[method-assign]
+    threading.Thread.__hash__ = _seq_hash  # type: ignore[method-assign,assignment]
+    _cf_base.Future.__init__ = _future_init  # type: ignore[method-assign]
+    _cf_base.Future.__hash__ = _seq_hash  # type: ignore[method-assign,assignment]
     queue.SimpleQueue = queue._PySimpleQueue  # type: ignore[attr-defined,misc]
     queue.time = _sim_time  # type: ignore[attr-defined]  # 'from time import monotonic as time'
     time.sleep = _sim_sleep
@@ -210,6 +262,11 @@ def uninstall() -> None:
     threading.Thread.start = _orig["start"]  # type: ignore[method-assign]
     threading.Thread.join = _orig["join"]  # type: ignore[method-assign]
     threading.Thread.is_alive = _orig["is_alive"]  # type: ignore[method-assign]
+    threading.Thread.__init__ = _orig["thread_init"]  # type: ignore[method-assign]
+    _cf_base.Future.__init__ = _orig["future_init"]  # type: ignore[method-assign]
+    for cls in (threading.Thread, _cf_base.Future):
+        if "__hash__" in cls.__dict__:
+            del cls.__hash__
     queue.SimpleQueue = _orig["SimpleQueue"]  # type: ignore[misc]
     queue.time = _orig["queue_time"]  # type: ignore[attr-defined]
     time.sleep = _orig["sleep"]
